@@ -57,7 +57,7 @@ ASSUMPTIONS = [
 ]
 FLOORS = {
     # about half of what the unchanged tree reaches (minimum over VERIF_SEED 0,1,2,3,17,12345)
-    "quick": {"cases_held": 412, "distinct_nontrivial": 115, "histories": 15000, "operations": 70000,
+    "quick": {"cases_held": 412, "distinct_nontrivial": 115, "histories": 15000, "operations": 105000,
               "world_comparisons": 240000, "entries_compared": 16_000_000, "alias_probes": 43000,
               "shared_adds": 9500, "slice_adds": 20000, "slice_reads": 239000, "resets_in_place": 5800,
               "resets_clear": 8700, "slice_resets": 7100, "scalar_histories": 288, "value_histories": 48,
